@@ -6,7 +6,9 @@ grids it can address from the north-west and takes the top-left corner from the 
 origin tile (C02.c); the public<->internal level mapping is applied consistently by
 internal_tile_coord, external_tile_coord and tile_sets (C02.d); the addressing elements of the
 TMS / WMTS / WMS-C capabilities templates are grid-derived and axis-correct (C02.e); the unit
-constants behind scale denominators are defined consistently (C02.f)."""
+constants behind scale denominators are defined consistently (C02.f).
+Added in round 4: a tile put together from tiles of another level keeps every tile at its own grid
+slot (C02.k, shared C01.f)."""
 import ast
 import math
 import re
